@@ -17,13 +17,14 @@ import (
 // C04 — each segment goes too-early -> available -> gone at exactly the right instants (engine T).
 
 type c04World struct {
-	VodRoot string `json:"vodroot"`
-	Asset   string `json:"asset"`
-	Cfg     URLCfg `json:"cfg"`
-	Rep     string `json:"rep"`            // representation id, or generated "timestpp-en" style
-	N       int64  `json:"n"`              // live segment index counted from AST
-	Kind    string `json:"kind,omitempty"` // "" sweep | "notfound"
-	Bad     string `json:"bad,omitempty"`  // for notfound: below-startnr | unknown-rep | unknown-asset
+	Gen     *GenWorld `json:"gen,omitempty"` // generated VoD world instead of the bundled assets
+	VodRoot string    `json:"vodroot"`
+	Asset   string    `json:"asset"`
+	Cfg     URLCfg    `json:"cfg"`
+	Rep     string    `json:"rep"`            // representation id, or generated "timestpp-en" style
+	N       int64     `json:"n"`              // live segment index counted from AST
+	Kind    string    `json:"kind,omitempty"` // "" sweep | "notfound"
+	Bad     string    `json:"bad,omitempty"`  // for notfound: below-startnr | unknown-rep | unknown-asset
 }
 
 type c04Op struct {
@@ -134,11 +135,14 @@ func mediaURL(tpl string, v int64) string {
 }
 
 func (C04) Gen(rng *core.Rng, tier string, idx int) *core.Scenario {
-	ar := core.Pick(rng, bundledMPDs)
-	a := refAssets(hx.BundledAssets)[ar.Asset]
+	label, gen, assetName, _, a := pickMPDWorld(rng)
+	ar := assetRef{Asset: assetName}
 	base := int64(1_600_000_000_000) + rng.Int63n(300_000_000_000)
 	if rng.Chance(0.15) {
 		base = rng.Int63n(4_000_000_000_000)
+	}
+	if maxBase := int64(1<<31) * a.SegDurMS; base > maxBase {
+		base = rng.Int63n(maxBase)
 	}
 	cfg := genTimelineCfg(rng, a, base)
 	if rng.Chance(0.35) {
@@ -161,7 +165,7 @@ func (C04) Gen(rng *core.Rng, tier string, idx int) *core.Scenario {
 	if rng.Chance(0.2) {
 		n = int64(rng.Range(0, 3*len(ref.Segs)))
 	}
-	w := c04World{VodRoot: "bundled", Asset: ar.Asset, Cfg: cfg, Rep: repID, N: n}
+	w := c04World{VodRoot: label, Gen: gen, Asset: ar.Asset, Cfg: cfg, Rep: repID, N: n}
 	if rng.Chance(0.08) {
 		w.Kind = "notfound"
 		w.Bad = core.Pick(rng, []string{"below-startnr", "unknown-rep", "unknown-asset"})
@@ -215,6 +219,9 @@ func (C04) Run(t *testing.T, sc *core.Scenario, res *core.Result) {
 		panic(err)
 	}
 	root := vodRootOf(w.VodRoot)
+	if w.Gen != nil {
+		root = genRoot(*w.Gen)
+	}
 	srvs := []*hx.Srv{sharedSrv(root), nil}
 	a := refAssets(root)[w.Asset]
 	if a == nil {
@@ -225,7 +232,7 @@ func (C04) Run(t *testing.T, sc *core.Scenario, res *core.Result) {
 	if !ok {
 		panic("harness: no model target")
 	}
-	feat := merge(cfg.Features(a), assetTraits(a), core.Sig("content", tg.Content))
+	feat := merge(cfg.Features(a), assetTraits(a), core.Sig("content", tg.Content, "world", w.VodRoot))
 	prefix := cfg.Prefix(w.Asset)
 	url := prefix + "/" + tg.URL
 	astMS := cfg.AST() * 1000
